@@ -1,10 +1,508 @@
-(* Proofs about the AutoProbing model (property C13). *)
-From Coq Require Import List NArith Lia Bool Permutation.
+(* Proofs about the AutoProbing model (property C13).
+   Structure:
+     A. list cells (get / upd)                     E. Valid, find is correct on Valid tables
+     B. occupancy, contents (the abstraction)      F. insertion at the first empty bucket keeps Valid
+     C. Power2Mod arithmetic                       G. find_or_insert / unchecked_insert
+     D. cyclic probing lemmas                      H. Double          I. AutoProbing, histories *)
+From Coq Require Import List ZArith NArith Lia Bool Permutation ZifyBool.
 From PP Require Import Gen.Src_probing Probing.ProbingDefs.
 Import ListNotations.
 Local Open Scope N_scope.
+Ltac Zify.zify_post_hook ::= Z.div_mod_to_equations.
 
-Lemma threshold_lt_buckets nb : 1 <= nb -> threshold_of nb < nb.
+(* ------------------------------------------------------------------ A. cells *)
+Section CellLemmas.
+  Context {A : Type}.
+  Implicit Types l : list A.
+
+  Lemma length_upd_nat l n x : length (upd_nat l n x) = length l.
+  Proof. revert n; induction l as [|h t IH]; intros [|n]; simpl; auto. Qed.
+
+  Lemma nth_error_upd_nat_eq l n x : (n < length l)%nat -> nth_error (upd_nat l n x) n = Some x.
+  Proof. revert n; induction l as [|h t IH]; intros [|n] H; simpl in *; try lia; auto. apply IH; lia. Qed.
+
+  Lemma nth_error_upd_nat_neq l n m x : n <> m -> nth_error (upd_nat l n x) m = nth_error l m.
+  Proof.
+    revert n m; induction l as [|h t IH]; intros [|n] [|m] H; simpl; auto; try congruence.
+  Qed.
+
+  Lemma upd_nat_app l1 a l2 x : upd_nat (l1 ++ a :: l2) (length l1) x = l1 ++ x :: l2.
+  Proof. induction l1 as [|h t IH]; simpl; auto. now rewrite IH. Qed.
+
+  Lemma len_upd l i x : len (upd l i x) = len l.
+  Proof. unfold len, upd. now rewrite length_upd_nat. Qed.
+
+  Lemma get_some_lt l i x : get l i = Some x -> i < len l.
+  Proof.
+    unfold get, len. intros H.
+    assert (N.to_nat i < length l)%nat by (apply nth_error_Some; congruence). lia.
+  Qed.
+
+  Lemma get_lt_some l i : i < len l -> exists x, get l i = Some x.
+  Proof.
+    unfold get, len. intros H. destruct (nth_error l (N.to_nat i)) eqn:E; eauto.
+    apply nth_error_None in E. lia.
+  Qed.
+
+  Lemma get_none_ge l i : get l i = None -> len l <= i.
+  Proof. unfold get, len. intros H. apply nth_error_None in H. lia. Qed.
+
+  Lemma get_upd_eq l i x : i < len l -> get (upd l i x) i = Some x.
+  Proof. unfold get, upd, len. intros H. apply nth_error_upd_nat_eq. lia. Qed.
+
+  Lemma get_upd_neq l i j x : i <> j -> get (upd l i x) j = get l j.
+  Proof. unfold get, upd. intros H. apply nth_error_upd_nat_neq. lia. Qed.
+
+  Lemma get_split l i a : get l i = Some a ->
+    exists l1 l2, l = l1 ++ a :: l2 /\ len l1 = i /\ forall x, upd l i x = l1 ++ x :: l2.
+  Proof.
+    unfold get, upd, len. intros H. apply nth_error_split in H. destruct H as (l1 & l2 & -> & Hl).
+    exists l1, l2. split; [reflexivity|]. split; [lia|]. intros x. rewrite <- Hl. apply upd_nat_app.
+  Qed.
+
+  Lemma get_app_l l r i : i < len l -> get (l ++ r) i = get l i.
+  Proof. unfold get, len. intros H. apply nth_error_app1. lia. Qed.
+
+  Lemma get_app_r l r i : len l <= i -> get (l ++ r) i = get r (i - len l).
+  Proof.
+    unfold get, len. intros H. rewrite nth_error_app2 by lia. f_equal. lia.
+  Qed.
+
+  Lemma get_repeat (x : A) n i : i < N.of_nat n -> get (repeat x n) i = Some x.
+  Proof.
+    unfold get. intros H. assert (Hn : (N.to_nat i < n)%nat) by lia.
+    revert Hn. generalize (N.to_nat i). clear H. induction n as [|n IH]; intros [|m] H; simpl; try lia; auto.
+    apply IH; lia.
+  Qed.
+
+  Lemma len_app l r : len (l ++ r) = len l + len r.
+  Proof. unfold len. rewrite app_length. lia. Qed.
+
+  Lemma len_repeat (x : A) n : len (repeat x n) = N.of_nat n.
+  Proof. unfold len. now rewrite repeat_length. Qed.
+End CellLemmas.
+
+(* ------------------------------------------------------------------ C. Power2Mod arithmetic *)
+Lemma land_mask e x : N.land x (2 ^ e - 1) = x mod 2 ^ e.
+Proof. rewrite <- N.land_ones. f_equal. rewrite N.ones_equiv. apply N.sub_1_r. Qed.
+
+Lemma pow2_pos e : 0 < 2 ^ e.
+Proof. apply N.neq_0_lt_0. apply N.pow_nonzero. lia. Qed.
+
+Lemma mask_double_spec e : mask_double (2 ^ e - 1) = 2 ^ (e + 1) - 1.
 Proof.
-  intros H. unfold threshold_of, thr_sub. pose proof (N.le_min_l (nb - 1) (nb * thr_num / thr_den)). lia.
+  unfold mask_double, mask_shl, mask_or.
+  assert (H : forall m, N.lor (N.shiftl m 1) 1 = 2 * m + 1).
+  { intros [|p]; reflexivity. }
+  rewrite H. rewrite N.pow_add_r. pose proof (pow2_pos e). simpl (2 ^ 1). lia.
 Qed.
+
+Lemma mod_double (h B : N) : 0 < B -> h mod (2 * B) = h mod B \/ h mod (2 * B) = h mod B + B.
+Proof.
+  intros HB. rewrite (N.mul_comm 2 B). rewrite N.mod_mul_r by lia.
+  assert (H2 : (h / B) mod 2 < 2) by (apply N.mod_lt; lia).
+  revert H2. generalize ((h / B) mod 2). generalize (h mod B). intros m r H2.
+  destruct (N.eq_dec r 0) as [->|E]; [left; lia | right].
+  assert (r = 1) by lia. subst. lia.
+Qed.
+
+(* next bucket, cyclically *)
+Definition nxt (B i : N) : N := if i + 1 =? B then 0 else i + 1.
+
+(* x lies in the cyclic half-open interval [p, q) of a table with B buckets *)
+Definition between (B p q x : N) : Prop :=
+  x < B /\ ((p <= q /\ p <= x < q) \/ (q < p /\ (p <= x \/ x < q))).
+
+(* number of steps from p to q going forward cyclically *)
+Definition dist (B p q : N) : N := if p <=? q then q - p else q + B - p.
+
+Ltac cyc := unfold nxt, between, dist in *;
+  repeat match goal with
+         | |- context [?a =? ?b] => destruct (N.eqb_spec a b)
+         | |- context [?a <=? ?b] => destruct (N.leb_spec a b)
+         | H : context [?a =? ?b] |- _ => destruct (N.eqb_spec a b)
+         | H : context [?a <=? ?b] |- _ => destruct (N.leb_spec a b)
+         end; try lia.
+
+Lemma between_step B p q x : p < B -> q < B -> p <> q ->
+  between B p q x <-> x = p \/ between B (nxt B p) q x.
+Proof. intros; cyc. Qed.
+
+Lemma dist_step B p q : p < B -> q < B -> p <> q -> dist B (nxt B p) q + 1 = dist B p q.
+Proof. intros; cyc. Qed.
+
+Lemma nxt_lt B p : p < B -> nxt B p < B.
+Proof. intros; cyc. Qed.
+
+Lemma between_self B p x : ~ between B p p x.
+Proof. cyc. Qed.
+
+Lemma dist_lt B p q : p < B -> q < B -> dist B p q < B.
+Proof. intros; cyc. Qed.
+
+(* ------------------------------------------------------------------ B. occupancy and contents *)
+Section Proofs.
+  Variable V : Type.
+  Variable v0 : V.
+  Variable hash : N -> N.
+
+  Notation entry := (entry V).
+  Notation ptable := (ptable V).
+  Implicit Types cs : list entry.
+
+  Definition live (e : entry) : bool := negb (ekey e =? invalid).
+  Definition occ cs (x : N) : Prop := exists e, get cs x = Some e /\ live e = true.
+  Definition emp cs (x : N) : Prop := exists e, get cs x = Some e /\ live e = false.
+  Definition contents cs : list entry := filter live cs.
+  Definition keys cs : list N := map ekey (contents cs).
+
+  Lemma live_true e : live e = true <-> ekey e <> invalid.
+  Proof. unfold live. destruct (N.eqb_spec (ekey e) invalid); simpl; split; congruence. Qed.
+  Lemma live_false e : live e = false <-> ekey e = invalid.
+  Proof. unfold live. destruct (N.eqb_spec (ekey e) invalid); simpl; split; congruence. Qed.
+
+  Lemma occ_or_emp cs x : x < len cs -> occ cs x \/ emp cs x.
+  Proof.
+    intros H. destruct (get_lt_some cs x H) as [e He].
+    destruct (live e) eqn:L; [left | right]; exists e; auto.
+  Qed.
+
+  Lemma occ_emp_excl cs x : occ cs x -> emp cs x -> False.
+  Proof. intros (e & He & L) (e' & He' & L'). congruence. Qed.
+
+  Lemma occ_lt cs x : occ cs x -> x < len cs.
+  Proof. intros (e & He & _). eapply get_some_lt; eauto. Qed.
+
+  Lemma emp_lt cs x : emp cs x -> x < len cs.
+  Proof. intros (e & He & _). eapply get_some_lt; eauto. Qed.
+
+  (* writing a live entry keeps every occupied bucket occupied *)
+  Lemma occ_upd_live cs q e x : live e = true -> q < len cs -> occ cs x -> occ (upd cs q e) x.
+  Proof.
+    intros L Hq (g & Hg & Lg). destruct (N.eq_dec q x) as [->|Ne].
+    - exists e. split; auto. apply get_upd_eq; auto.
+    - exists g. split; auto. rewrite get_upd_neq; auto.
+  Qed.
+
+  Lemma occ_upd_other cs q e x : q <> x -> occ (upd cs q e) x <-> occ cs x.
+  Proof. intros Ne. unfold occ. rewrite get_upd_neq by auto. tauto. Qed.
+
+  Lemma emp_upd_other cs q e x : q <> x -> emp (upd cs q e) x <-> emp cs x.
+  Proof. intros Ne. unfold emp. rewrite get_upd_neq by auto. tauto. Qed.
+
+  Lemma in_contents cs e : In e (contents cs) <-> exists i, get cs i = Some e /\ live e = true.
+  Proof.
+    unfold contents. rewrite filter_In. split.
+    - intros [Hin L]. apply In_nth_error in Hin. destruct Hin as [n Hn].
+      exists (N.of_nat n). split; auto. unfold get. now rewrite Nat2N.id.
+    - intros (i & Hi & L). split; auto. eapply nth_error_In; eauto.
+  Qed.
+
+  Lemma contents_vacate cs i e : get cs i = Some e -> live e = true ->
+    Permutation (e :: contents (upd cs i (set_key e invalid))) (contents cs).
+  Proof.
+    intros H L. destruct (get_split _ _ _ H) as (l1 & l2 & -> & _ & Hu). rewrite Hu.
+    assert (L' : live (set_key e invalid) = false) by (apply live_false; reflexivity).
+    unfold contents. rewrite !filter_app. cbn [filter]. rewrite L, L'. apply Permutation_middle.
+  Qed.
+
+  Lemma contents_fill cs i g e : get cs i = Some g -> live g = false -> live e = true ->
+    Permutation (contents (upd cs i e)) (e :: contents cs).
+  Proof.
+    intros H Lg L. destruct (get_split _ _ _ H) as (l1 & l2 & -> & _ & Hu). rewrite Hu.
+    unfold contents. rewrite !filter_app. cbn [filter]. rewrite L, Lg. symmetry. apply Permutation_middle.
+  Qed.
+
+  (* replacing the value of a live entry (same key) *)
+  Lemma contents_set_value cs i g e : get cs i = Some g -> live g = true -> ekey e = ekey g ->
+    keys (upd cs i e) = keys cs.
+  Proof.
+    intros H Lg K. destruct (get_split _ _ _ H) as (l1 & l2 & -> & _ & Hu). rewrite Hu.
+    assert (L : live e = true) by (apply live_true; rewrite K; now apply live_true).
+    unfold keys, contents. rewrite !filter_app. cbn [filter]. rewrite L, Lg. rewrite !map_app. cbn [map]. now rewrite K.
+  Qed.
+
+  Lemma nodup_keys_pos cs i j e1 e2 : NoDup (keys cs) ->
+    get cs i = Some e1 -> get cs j = Some e2 -> live e1 = true -> ekey e1 = ekey e2 -> i = j.
+  Proof.
+    assert (W : forall cs i j e1 e2, NoDup (keys cs) -> i < j ->
+      get cs i = Some e1 -> get cs j = Some e2 -> live e1 = true -> live e2 = true -> ekey e1 = ekey e2 -> False).
+    { clear. intros cs i j e1 e2 ND Hij H1 H2 L1 L2 K.
+      destruct (get_split _ _ _ H1) as (l1 & l2 & -> & Hl & _).
+      rewrite get_app_r in H2 by lia.
+      assert (Hj : get l2 (j - len l1 - 1) = Some e2).
+      { unfold get in *. replace (N.to_nat (j - len l1)) with (S (N.to_nat (j - len l1 - 1))) in H2 by lia. exact H2. }
+      unfold keys, contents in ND. rewrite filter_app, map_app in ND. simpl in ND. rewrite L1 in ND. simpl in ND.
+      apply NoDup_remove_2 in ND. apply ND. apply in_or_app. right.
+      rewrite K. apply in_map. apply filter_In. split; auto. unfold get in Hj. eapply nth_error_In; eauto. }
+    intros ND H1 H2 L1 K.
+    assert (L2 : live e2 = true) by (apply live_true; rewrite <- K; now apply live_true).
+    destruct (N.lt_trichotomy i j) as [Hlt|[->|Hgt]]; auto; exfalso.
+    - eapply (W cs i j e1 e2); eauto.
+    - eapply (W cs j i e2 e1); eauto.
+  Qed.
+
+  Lemma exists_empty cs : (length (contents cs) < length cs)%nat -> exists x, emp cs x.
+  Proof.
+    induction cs as [|h t IH]; simpl; intros H; [lia|].
+    destruct (live h) eqn:L.
+    - simpl in H. destruct IH as (x & e & He & Le); [lia|].
+      exists (x + 1), e. split; auto. unfold get in *. replace (N.to_nat (x + 1)) with (S (N.to_nat x)) by lia. exact He.
+    - exists 0, h. split; auto.
+  Qed.
+
+  (* ---------------------------------------------------------------- D. probing lemmas *)
+  Section Probe.
+    Variable cs : list entry.
+    Variable B : N.
+    Hypothesis Hlen : len cs = B.
+
+    (* from p, an empty bucket q' with everything before it occupied exists whenever some bucket is empty *)
+    Lemma first_empty_from : forall n p f, p < B -> emp cs f -> dist B p f = N.of_nat n ->
+      exists q, emp cs q /\ forall x, between B p q x -> occ cs x.
+    Proof.
+      induction n as [|n IH]; intros p f Hp Hf Hd.
+      - assert (f < B) by (rewrite <- Hlen; eapply emp_lt; eauto).
+        assert (p = f) by cyc. subst. exists f. split; auto. intros x Hx. exfalso. eapply between_self; eauto.
+      - assert (Hfb : f < B) by (rewrite <- Hlen; eapply emp_lt; eauto).
+        destruct (occ_or_emp cs p) as [Ho|He]; [lia| |].
+        + assert (Hne : p <> f) by (intros ->; eapply occ_emp_excl; eauto).
+          destruct (IH (nxt B p) f) as (q & Hq & Hall); auto using nxt_lt.
+          { pose proof (dist_step B p f Hp Hfb Hne). lia. }
+          exists q. split; auto. intros x Hx.
+          assert (Hqb : q < B) by (rewrite <- Hlen; eapply emp_lt; eauto).
+          assert (Hpq : p <> q) by (intros ->; eapply occ_emp_excl; eauto).
+          apply (between_step B p q x Hp Hqb Hpq) in Hx. destruct Hx as [->|Hx]; auto.
+        + exists p. split; auto. intros x Hx. exfalso. eapply between_self; eauto.
+    Qed.
+
+    Lemma first_empty p : p < B -> (exists f, emp cs f) ->
+      exists q, emp cs q /\ forall x, between B p q x -> occ cs x.
+    Proof.
+      intros Hp [f Hf]. eapply (first_empty_from (N.to_nat (dist B p f)) p f); eauto. lia.
+    Qed.
+
+    Variable mask : N.
+    Hypothesis Hnext : forall i, i < B -> next mask i = nxt B i.
+
+    (* find_loop walks the cyclic interval [p, q) of foreign live keys and stops at q *)
+    Lemma find_loop_walk k : forall fuel p q, p < B -> q < B -> dist B p q < N.of_nat fuel ->
+      (forall x, between B p q x -> exists e, get cs x = Some e /\ live e = true /\ ekey e <> k) ->
+      forall eq, get cs q = Some eq -> (ekey eq = k \/ live eq = false) ->
+      find_loop V fuel cs mask p k = Ok (if ekey eq =? k then Some q else None).
+    Proof.
+      induction fuel as [|fuel IH]; intros p q Hp Hq Hd Hall eq Hget Hstop; [lia|].
+      simpl. destruct (N.eq_dec p q) as [->|Hne].
+      - rewrite Hget. destruct (N.eqb_spec (ekey eq) k); auto.
+        destruct Hstop as [?|L]; [congruence|]. apply live_false in L. rewrite L. rewrite N.eqb_refl. reflexivity.
+      - destruct (Hall p) as (e & He & L & K); [cyc|]. rewrite He.
+        destruct (N.eqb_spec (ekey e) k); [congruence|].
+        apply live_true in L. destruct (N.eqb_spec (ekey e) invalid); [congruence|].
+        rewrite Hnext by auto. apply IH; auto using nxt_lt.
+        + pose proof (dist_step B p q Hp Hq Hne). lia.
+        + intros x Hx. apply Hall. apply between_step; auto.
+    Qed.
+
+    (* ui_loop (UncheckedInsert) walks over occupied buckets and writes into the first empty one *)
+    Lemma ui_loop_walk e : forall fuel p q, p < B -> q < B -> dist B p q < N.of_nat fuel ->
+      (forall x, between B p q x -> occ cs x) -> emp cs q ->
+      ui_loop V fuel cs mask p e = Ok (upd cs q e, q).
+    Proof.
+      induction fuel as [|fuel IH]; intros p q Hp Hq Hd Hall Hemp; [lia|].
+      simpl. destruct (N.eq_dec p q) as [->|Hne].
+      - destruct Hemp as (g & Hg & L). rewrite Hg. apply live_false in L. rewrite L, N.eqb_refl. reflexivity.
+      - destruct (Hall p) as (g & Hg & L); [cyc|]. rewrite Hg.
+        apply live_true in L. destruct (N.eqb_spec (ekey g) invalid); [congruence|].
+        rewrite Hnext by auto. apply IH; auto using nxt_lt.
+        + pose proof (dist_step B p q Hp Hq Hne). lia.
+        + intros x Hx. apply Hall. apply between_step; auto.
+    Qed.
+  End Probe.
+
+  (* ---------------------------------------------------------------- E. Valid *)
+  Definition ideal_of (e : N) (k : N) : N := hash k mod 2 ^ e.
+
+  Record Valid cs (e : N) : Prop := mkValid {
+    v_len : len cs = 2 ^ e;
+    v_nodup : NoDup (keys cs);
+    v_path : forall q en, get cs q = Some en -> live en = true ->
+             forall x, between (2 ^ e) (ideal_of e (ekey en)) q x -> occ cs x;
+    v_room : N.of_nat (length (contents cs)) < 2 ^ e }.
+
+  Lemma ideal_of_lt e k : ideal_of e k < 2 ^ e.
+  Proof. unfold ideal_of. apply N.mod_lt. pose proof (pow2_pos e). lia. Qed.
+
+  Lemma ideal_mask e k : ideal hash (2 ^ e - 1) k = ideal_of e k.
+  Proof. unfold ideal, ideal_of. apply land_mask. Qed.
+
+  Lemma next_mask e i : i < 2 ^ e -> next (2 ^ e - 1) i = nxt (2 ^ e) i.
+  Proof.
+    intros H. unfold next, nxt. rewrite land_mask.
+    destruct (N.eqb_spec (i + 1) (2 ^ e)) as [E|E].
+    - rewrite E. apply N.mod_same. pose proof (pow2_pos e). lia.
+    - apply N.mod_small. lia.
+  Qed.
+
+  Lemma valid_has_empty cs e : Valid cs e -> exists f, emp cs f.
+  Proof.
+    intros [Hl _ _ Hr]. apply exists_empty. unfold len in Hl. lia.
+  Qed.
+
+  Lemma in_keys cs k : In k (keys cs) <-> exists i en, get cs i = Some en /\ live en = true /\ ekey en = k.
+  Proof.
+    unfold keys. rewrite in_map_iff. split.
+    - intros (en & K & Hin). apply in_contents in Hin. destruct Hin as (i & Hi & L). eauto.
+    - intros (i & en & Hi & L & K). exists en. split; auto. apply in_contents. eauto.
+  Qed.
+
+  (* Find on a valid table: a stored key is found where it is stored *)
+  Lemma find_present cs e q en : Valid cs e -> get cs q = Some en -> live en = true ->
+    find_loop V (length cs) cs (2 ^ e - 1) (ideal_of e (ekey en)) (ekey en) = Ok (Some q).
+  Proof.
+    intros Hv Hq L. pose proof (v_len _ _ Hv) as Hl.
+    assert (Hqb : q < 2 ^ e) by (rewrite <- Hl; eapply get_some_lt; eauto).
+    rewrite (find_loop_walk cs (2 ^ e) Hl (2 ^ e - 1) (next_mask e) (ekey en) (length cs) (ideal_of e (ekey en)) q) with (eq := en); auto.
+    - now rewrite N.eqb_refl.
+    - apply ideal_of_lt.
+    - pose proof (dist_lt (2 ^ e) (ideal_of e (ekey en)) q (ideal_of_lt _ _) Hqb). unfold len in Hl. lia.
+    - intros x Hx. destruct (v_path _ _ Hv q en Hq L x Hx) as (g & Hg & Lg).
+      exists g. repeat split; auto. intros K.
+      assert (x = q) by (eapply nodup_keys_pos; eauto using v_nodup).
+      subst. unfold between in Hx. lia.
+  Qed.
+
+  (* ... and a key that is not stored is reported absent *)
+  Lemma find_absent cs e k : Valid cs e -> k <> invalid -> ~ In k (keys cs) ->
+    find_loop V (length cs) cs (2 ^ e - 1) (ideal_of e k) k = Ok None.
+  Proof.
+    intros Hv Hk Hn. pose proof (v_len _ _ Hv) as Hl.
+    destruct (first_empty cs (2 ^ e) Hl (ideal_of e k) (ideal_of_lt _ _) (valid_has_empty _ _ Hv)) as (q & Hq & Hall).
+    assert (Hqb : q < 2 ^ e) by (rewrite <- Hl; eapply emp_lt; eauto).
+    destruct Hq as (eq & Hget & Leq).
+    rewrite (find_loop_walk cs (2 ^ e) Hl (2 ^ e - 1) (next_mask e) k (length cs) (ideal_of e k) q) with (eq := eq); auto.
+    - apply live_false in Leq. destruct (N.eqb_spec (ekey eq) k); [congruence|reflexivity].
+    - apply ideal_of_lt.
+    - pose proof (dist_lt (2 ^ e) (ideal_of e k) q (ideal_of_lt _ _) Hqb). unfold len in Hl. lia.
+    - intros x Hx. destruct (Hall x Hx) as (g & Hg & Lg). exists g. repeat split; auto.
+      intros K. apply Hn. apply in_keys. eauto.
+  Qed.
+
+  (* ---------------------------------------------------------------- F. insertion keeps Valid *)
+  Lemma perm_keys cs cs' l : Permutation (contents cs') (l ++ contents cs) ->
+    Permutation (keys cs') (map ekey l ++ keys cs).
+  Proof. intros H. unfold keys. rewrite <- map_app. now apply Permutation_map. Qed.
+
+  Lemma valid_insert cs e q en : Valid cs e -> emp cs q -> live en = true -> ~ In (ekey en) (keys cs) ->
+    (forall x, between (2 ^ e) (ideal_of e (ekey en)) q x -> occ cs x) ->
+    N.of_nat (length (contents cs)) + 1 < 2 ^ e ->
+    Valid (upd cs q en) e /\ Permutation (contents (upd cs q en)) (en :: contents cs).
+  Proof.
+    intros Hv Hq L Hn Hpath Hroom.
+    assert (Hqlen : q < len cs) by (eapply emp_lt; eauto).
+    destruct Hq as (g & Hg & Lg).
+    assert (HP : Permutation (contents (upd cs q en)) (en :: contents cs)) by (eapply contents_fill; eauto).
+    split; auto. constructor.
+    - rewrite len_upd. apply Hv.
+    - apply (Permutation_NoDup (l := ekey en :: keys cs)).
+      + symmetry. apply (perm_keys cs (upd cs q en) [en]). exact HP.
+      + constructor; auto. apply Hv.
+    - intros q' en' Hget L' x Hx. destruct (N.eq_dec q q') as [<-|Ne].
+      + rewrite get_upd_eq in Hget by auto. injection Hget as <-.
+        apply occ_upd_live; auto.
+      + rewrite get_upd_neq in Hget by auto. apply occ_upd_live; auto.
+        eapply (v_path _ _ Hv); eauto.
+    - apply Permutation_length in HP. rewrite HP. simpl. lia.
+  Qed.
+
+  (* ---------------------------------------------------------------- G. unchecked_insert, find_or_insert *)
+  Lemma unchecked_insert_absent cs e en : Valid cs e -> live en = true -> ~ In (ekey en) (keys cs) ->
+    N.of_nat (length (contents cs)) + 1 < 2 ^ e ->
+    exists q, unchecked_insert V hash cs (2 ^ e - 1) en = Ok (upd cs q en, q) /\ emp cs q /\
+              Valid (upd cs q en) e /\ Permutation (contents (upd cs q en)) (en :: contents cs).
+  Proof.
+    intros Hv L Hn Hroom. pose proof (v_len _ _ Hv) as Hl.
+    destruct (first_empty cs (2 ^ e) Hl (ideal_of e (ekey en)) (ideal_of_lt _ _) (valid_has_empty _ _ Hv)) as (q & Hq & Hall).
+    assert (Hqb : q < 2 ^ e) by (rewrite <- Hl; eapply emp_lt; eauto).
+    exists q. unfold unchecked_insert. rewrite ideal_mask.
+    rewrite (ui_loop_walk cs (2 ^ e) Hl (2 ^ e - 1) (next_mask e) en (length cs) (ideal_of e (ekey en)) q); auto.
+    - split; auto. split; auto. apply valid_insert; auto.
+    - apply ideal_of_lt.
+    - pose proof (dist_lt (2 ^ e) (ideal_of e (ekey en)) q (ideal_of_lt _ _) Hqb). unfold len in Hl. lia.
+  Qed.
+
+  Section FoiLoop.
+    Variable t : ptable.
+    Variable B : N.
+    Hypothesis Hlen : len (cells t) = B.
+    Hypothesis Hnext : forall i, i < B -> next (mask t) i = nxt B i.
+    Variable en : entry.
+
+    Lemma foi_loop_walk : forall fuel p q, p < B -> q < B -> dist B p q < N.of_nat fuel ->
+      (forall x, between B p q x -> exists g, get (cells t) x = Some g /\ live g = true /\ ekey g <> ekey en) ->
+      forall g, get (cells t) q = Some g -> (ekey g = ekey en \/ live g = false) ->
+      foi_loop V fuel t p en =
+        if ekey g =? ekey en then Ok (true, q, t)
+        else if nbuckets t <=? entries t + 1 then ErrFull
+             else Ok (false, q, mkPT (upd (cells t) q en) (nbuckets t) (mask t) (entries t + 1)).
+    Proof.
+      induction fuel as [|fuel IH]; intros p q Hp Hq Hd Hall g Hget Hstop; [lia|].
+      simpl. destruct (N.eq_dec p q) as [->|Hne].
+      - rewrite Hget. destruct (N.eqb_spec (ekey g) (ekey en)); auto.
+        destruct Hstop as [?|L]; [congruence|]. apply live_false in L. rewrite L. rewrite N.eqb_refl. reflexivity.
+      - destruct (Hall p) as (g' & Hg' & L & K); [cyc|]. rewrite Hg'.
+        destruct (N.eqb_spec (ekey g') (ekey en)); [congruence|].
+        apply live_true in L. destruct (N.eqb_spec (ekey g') invalid); [congruence|].
+        rewrite Hnext by auto. apply IH; auto using nxt_lt.
+        + pose proof (dist_step B p q Hp Hq Hne). lia.
+        + intros x Hx. apply Hall. apply between_step; auto.
+    Qed.
+  End FoiLoop.
+
+  (* geometry of a ProbingHashTable with 2^e buckets *)
+  Definition Geom (t : ptable) (e : N) : Prop := nbuckets t = 2 ^ e /\ mask t = 2 ^ e - 1.
+
+  Lemma find_or_insert_present t e q g en : Valid (cells t) e -> Geom t e ->
+    get (cells t) q = Some g -> live g = true -> ekey g = ekey en ->
+    find_or_insert V hash t en = Ok (true, q, t).
+  Proof.
+    intros Hv [Hnb Hm] Hg L K. pose proof (v_len _ _ Hv) as Hl.
+    assert (Hqb : q < 2 ^ e) by (rewrite <- Hl; eapply get_some_lt; eauto).
+    unfold find_or_insert. rewrite Hm, ideal_mask.
+    assert (Hnx : forall i, i < 2 ^ e -> next (mask t) i = nxt (2 ^ e) i) by (rewrite Hm; apply next_mask).
+    rewrite (foi_loop_walk t (2 ^ e) Hl Hnx en (length (cells t)) (ideal_of e (ekey en)) q) with (g := g); auto.
+    - rewrite K, N.eqb_refl. reflexivity.
+    - apply ideal_of_lt.
+    - pose proof (dist_lt (2 ^ e) (ideal_of e (ekey en)) q (ideal_of_lt _ _) Hqb). unfold len in Hl. lia.
+    - intros x Hx. rewrite <- K in Hx. destruct (v_path _ _ Hv q g Hg L x Hx) as (g' & Hg' & Lg').
+      exists g'. repeat split; auto. intros K'.
+      assert (x = q) by (eapply nodup_keys_pos; eauto using v_nodup; congruence).
+      subst. unfold between in Hx. lia.
+  Qed.
+
+  Lemma find_or_insert_absent t e en : Valid (cells t) e -> Geom t e ->
+    live en = true -> ~ In (ekey en) (keys (cells t)) ->
+    entries t = N.of_nat (length (contents (cells t))) -> entries t + 1 < 2 ^ e ->
+    exists q, find_or_insert V hash t en =
+                Ok (false, q, mkPT (upd (cells t) q en) (nbuckets t) (mask t) (entries t + 1)) /\
+              emp (cells t) q /\ Valid (upd (cells t) q en) e /\
+              Permutation (contents (upd (cells t) q en)) (en :: contents (cells t)).
+  Proof.
+    intros Hv [Hnb Hm] L Hn Hent Hroom. pose proof (v_len _ _ Hv) as Hl.
+    destruct (first_empty (cells t) (2 ^ e) Hl (ideal_of e (ekey en)) (ideal_of_lt _ _) (valid_has_empty _ _ Hv)) as (q & Hq & Hall).
+    assert (Hqb : q < 2 ^ e) by (rewrite <- Hl; eapply emp_lt; eauto).
+    exists q. unfold find_or_insert. rewrite Hm, ideal_mask.
+    assert (Hnx : forall i, i < 2 ^ e -> next (mask t) i = nxt (2 ^ e) i) by (rewrite Hm; apply next_mask).
+    destruct Hq as (g & Hg & Lg).
+    rewrite (foi_loop_walk t (2 ^ e) Hl Hnx en (length (cells t)) (ideal_of e (ekey en)) q) with (g := g); auto.
+    - assert (Kg : ekey g <> ekey en).
+      { apply live_false in Lg. apply live_true in L. congruence. }
+      destruct (N.eqb_spec (ekey g) (ekey en)); [congruence|].
+      rewrite Hnb. destruct (N.leb_spec (2 ^ e) (entries t + 1)); [lia|].
+      rewrite Hm. split; [reflexivity|]. split; [exists g; auto|].
+      apply valid_insert; auto. exists g; auto. lia.
+    - apply ideal_of_lt.
+    - pose proof (dist_lt (2 ^ e) (ideal_of e (ekey en)) q (ideal_of_lt _ _) Hqb). unfold len in Hl. lia.
+    - intros x Hx. destruct (Hall x Hx) as (g' & Hg' & Lg'). exists g'. repeat split; auto.
+      intros K. apply Hn. apply in_keys. eauto.
+  Qed.
+End Proofs.
